@@ -37,7 +37,9 @@ func (s *Slice[T]) Unshift(elements ...T) int {
 	s.mu.Lock()
 	defer s.mu.Unlock()
 
-	s.elements = append(elements, s.elements...)
+	// never adopt the caller's backing array
+	merged := make([]T, 0, len(elements)+len(s.elements))
+	s.elements = append(append(merged, elements...), s.elements...)
 	return len(s.elements)
 }
 
@@ -134,7 +136,9 @@ func (s *Slice[T]) splice(start, deleteCount int, insert ...T) ([]T, error) {
 	removed := make([]T, deleteCount)
 	copy(removed, s.elements[start:start+deleteCount])
 
-	s.elements = append(s.elements[:start], append(insert, s.elements[start+deleteCount:]...)...)
+	// copy the tail first: appending to insert could write into the caller's backing array
+	tail := append([]T(nil), s.elements[start+deleteCount:]...)
+	s.elements = append(append(s.elements[:start], insert...), tail...)
 	return removed, nil
 }
 
